@@ -212,8 +212,7 @@ Proof.
     apply (p_sess _ _ (fold_pres (fun st' n => fst (add_label st' n l)) (fun st' n => pres_add_label st' n l) _ st)).
   - destruct (ctx st s) as [e0 t0]. cbn [fst].
     apply (p_sess _ _ (fold_pres (fun st' n => fst (remove_label st' n l)) (fun st' n => pres_remove_label st' n l) _ st)).
-  - pose proof (pres_delete_node_at_epoch st n (st_epoch st)) as H0.
-    destruct (delete_node_at_epoch st n (st_epoch st)) as [st1 b]. exact (p_sess _ _ H0).
+  - exact (p_sess _ _ (pres_db_delete_node st n)).
   - reflexivity.
   - pose proof (pres_remove_node_property st n k) as H0.
     destruct (remove_node_property st n k) as [st1 b]. exact (p_sess _ _ H0).
@@ -266,8 +265,7 @@ Proof.
     split; [exact (p_nn _ _ Hp)|exact (p_en _ _ Hp)].
   - destruct (sess st s); split; reflexivity.
   - destruct (sess st s); split; reflexivity.
-  - pose proof (pres_delete_node_at_epoch st n (st_epoch st)) as Hp.
-    destruct (delete_node_at_epoch st n (st_epoch st)) as [st1 b]. cbn [fst] in *. split; [exact (p_nn _ _ Hp)|exact (p_en _ _ Hp)].
+  - pose proof (pres_db_delete_node st n) as Hp. split; [exact (p_nn _ _ Hp)|exact (p_en _ _ Hp)].
   - split; reflexivity.
   - split; reflexivity.
   - pose proof (pres_add_label st n l) as Hp. destruct (add_label st n l) as [st1 b]. cbn [fst] in *.
@@ -672,13 +670,14 @@ Proof.
   assert (Hdb : forall n, okc (let cm := Ms st n in let ci := in_db (s_comm sp) n in let sys := Mv st (tm_epoch st) SYSTEM n in
                                if Bool.eqb cm ci then 0 else if cm then (if sys then 1 else 4) else (if sys then 4 else 3))).
   { intros n. cbn zeta. unfold okc. repeat match goal with |- context [if ?b then _ else _] => destruct b end; lia. }
+  assert (Hdet : forall d id eb, okc (detach_class st d id eb)).
+  { intros d id eb. unfold detach_class. apply first_class_okc. intros x. unfold okc. destruct (d_edge d x) as [[[a b] ty]|];
+      repeat match goal with |- context [if ?b then _ else _] => destruct b end; lia. }
   destruct o; try (unfold okc; lia).
   - (* DeleteNode *)
     destruct (ctx st s) as [e t].
     match goal with |- okc (if negb (?c =? 0) then _ else _) => assert (Hc : okc c) by apply scan_class_okc; destruct (negb (c =? 0)); [exact Hc|] end.
-    destruct (detach && sp_match (view_of sp s) m id); [|unfold okc; lia].
-    apply first_class_okc. intros x. unfold okc. destruct (d_edge (view_of sp s) x) as [[[a b] ty]|];
-      repeat match goal with |- context [if ?b then _ else _] => destruct b end; lia.
+    destruct (detach && sp_match (view_of sp s) m id); [|unfold okc; lia]. apply Hdet.
   - (* CreateEdgeQ *)
     destruct (ctx st s) as [e t].
     match goal with |- okc (if negb (?c =? 0) then _ else _) => assert (Hc : okc c) by apply scan_class_okc; destruct (negb (c =? 0)); [exact Hc|apply scan_class_okc] end.
@@ -694,7 +693,9 @@ Proof.
     destruct (ctx st s) as [e t].
     match goal with |- okc (if negb (?c =? 0) then _ else _) => assert (Hc : okc c) by apply scan_class_okc; destruct (negb (c =? 0)); [exact Hc|] end.
     unfold okc. repeat match goal with |- context [if ?b then _ else _] => destruct b end; lia.
-  - (* DbDeleteNode *) apply Hdb.
+  - (* DbDeleteNode *)
+    match goal with |- okc (if negb (?c =? 0) then _ else _) => assert (Hc : okc c) by apply Hdb; destruct (negb (c =? 0)); [exact Hc|] end.
+    destruct (in_db (s_comm sp) n); [apply Hdet|unfold okc; lia].
   - (* DbAddLabel *)
     match goal with |- okc (if negb (?c =? 0) then _ else _) => assert (Hc : okc c) by apply Hdb; destruct (negb (c =? 0)); [exact Hc|] end.
     unfold okc. repeat match goal with |- context [if ?b then _ else _] => destruct b end; lia.
